@@ -134,9 +134,53 @@ def check_exactly_once_interfaces(ctx):
                     break
             if bad:
                 break
+        # environment: the process may use a single CPU (taskset, a one-CPU
+        # container), and file_parallelism left at its default
+        env_n = 0
+        if bad is None and hasattr(os, "sched_setaffinity"):
+            root, expect = build_layouts(tmp / "env", "fb", "")["nested"]
+            d = Dataset(root)
+            allowed = os.sched_getaffinity(0)
+            try:
+                for cpus in ({min(allowed)}, allowed):
+                    os.sched_setaffinity(0, cpus)
+                    for iface in _ifaces("fb", tier):
+                        for shuffle in (0, 3):
+                            for kw in ({}, {"file_parallelism": 1},
+                                       {"file_parallelism": 8}):
+                                if iface == "numpy" and kw:
+                                    continue
+                                env_n += 1
+                                try:
+                                    got = C.iterate(d, iface, "train",
+                                                    shuffle=shuffle, **kw)
+                                except Exception as e:  # noqa: BLE001
+                                    got = repr(e)[:200]
+                                if not isinstance(got, list) or \
+                                        collections.Counter(got) != \
+                                        collections.Counter(expect["train"]):
+                                    bad = dict(layout="nested", fmt="fb",
+                                               interface=iface,
+                                               shuffle=shuffle,
+                                               usable_cpus=len(cpus),
+                                               got=got if not isinstance(
+                                                   got, list) else sorted(got),
+                                               expected=sorted(
+                                                   expect["train"]), **kw)
+                                    break
+                            if bad:
+                                break
+                        if bad:
+                            break
+                    if bad:
+                        break
+            finally:
+                os.sched_setaffinity(0, allowed)
+        n_eval += env_n
     res.append(C.result(
         "one pass == multiset written (all interfaces, layouts, shuffle, "
-        "file_parallelism); process_record called once per example",
+        "file_parallelism, one usable CPU / default parallelism); "
+        "process_record called once per example",
         bad is None, function="as_numpy_iterator", evaluations=n_eval,
         witness=bad,
         bound=f"formats {fmts}, 3 layouts (<=16 examples), shuffle in "
@@ -368,6 +412,10 @@ def check_selection(ctx):
                 "notB": lambda s: (s.custom_metadata if hasattr(
                     s, "custom_metadata") else s.get("custom_metadata", {})
                 ).get("k") != "B",
+                # exactly one shard
+                "C": lambda s: (s.custom_metadata if hasattr(
+                    s, "custom_metadata") else s.get("custom_metadata", {})
+                ).get("k") == "C",
             }
             ks = [None, 1, 3, nshards, nshards + 5]
             ns = [None, 1, 2, 10]
@@ -399,6 +447,22 @@ def check_selection(ctx):
                                            limit=n, filter=pname, got=got,
                                            expected=ref)
                                 break
+                            # the same selection, shuffled: same multiset
+                            # (selections of one shard and of several)
+                            if not (k in (None, 1, 3) and n in (None, 1)):
+                                continue
+                            n_eval += 1
+                            try:
+                                got = C.iterate(d, iface, "train", shuffle=3,
+                                                **kw)
+                            except Exception as e:  # noqa: BLE001
+                                got = repr(e)[:300]
+                            if not isinstance(got, list) or \
+                                    sorted(got) != sorted(ref):
+                                bad = dict(fmt=fmt, interface=iface, shards=k,
+                                           limit=n, filter=pname, shuffle=3,
+                                           got=got, expected_multiset=ref)
+                                break
                         if bad:
                             break
                     if bad:
@@ -423,6 +487,42 @@ def check_selection(ctx):
                     pass
             if bad:
                 break
+        # one handle without recorded checksums: select, write more through
+        # the same handle, select again - the selection sees the new shards
+        if bad is None:
+            root = tmp / "live_nohash"
+            d = C.mk_dataset(root, "fb", "", eps=2, hashes=())
+            C.fill(d, range(0, 4), "train", metadata=[{"k": "A"}] * 4)
+            first = C.iterate(d, "numpy", "train", shards=1)
+            C.fill(d, range(4, 10), "train",
+                   metadata=[{"k": "B"}] * 3 + [{"k": "A"}] * 3)
+            isB = lambda s: (s.custom_metadata if hasattr(  # noqa: E731
+                s, "custom_metadata") else s.get("custom_metadata", {})
+            ).get("k") == "B"
+            for kw, sel in ((dict(shards=4), dict(k=4)),
+                            (dict(shard_filter=isB), dict(pred=isB)),
+                            (dict(custom_metadata_type_limit=1), dict(n=1)),
+                            (dict(), dict())):
+                for iface in ("numpy", "concurrent"):
+                    n_eval += 1
+                    ref = reference_sequence(d, root, "train", **sel)
+                    try:
+                        got = C.iterate(d, iface, "train", file_parallelism=2,
+                                        **kw)
+                    except Exception as e:  # noqa: BLE001
+                        got = repr(e)[:300]
+                    if got != ref:
+                        bad = dict(what="handle created without checksums, "
+                                   "iterated, written to again, then asked "
+                                   "for a selection", interface=iface,
+                                   selection={a: (b if not callable(b) else
+                                                  "k == 'B'")
+                                              for a, b in kw.items()},
+                                   got=got, expected=ref,
+                                   first_selection=first)
+                        break
+                if bad:
+                    break
     return [C.result(
         "selection options (first k, predicate, n per metadata value) give "
         "the reference selection in every interface; empty selection raises",
@@ -500,6 +600,34 @@ def check_repeat(ctx):
                     break
             if bad:
                 break
+        # the object returned by as_tfdataset is iterated several times
+        # (e.g. once per training run): every iteration is a stream of its
+        # own, starting at the beginning of the split
+        if bad is None:
+            ref = reference_sequence(d, root, "train")
+            for fp in (1, 2):
+                n_eval += 1
+                try:
+                    tfds = d.as_tfdataset(split="train", repeat=True,
+                                          shuffle=0, batch_size=0,
+                                          file_parallelism=fp)
+                    takes = []
+                    for n_take in (5, 3, len(ref) + 2):
+                        takes.append([C.ex_id(e) for e in itertools.islice(
+                            tfds.as_numpy_iterator(), n_take)])
+                except Exception as e:  # noqa: BLE001
+                    bad = dict(interface="tf", fp=fp,
+                               what="iterating the returned dataset again "
+                                    "failed", error=repr(e)[:300])
+                    break
+                want = [(ref * 3)[:n_take] for n_take in (5, 3, len(ref) + 2)]
+                if takes != want:
+                    bad = dict(interface="tf", fp=fp, shuffle=0,
+                               what="a second / third iteration of the "
+                                    "returned tf.data.Dataset is not the "
+                                    "one-pass sequence repeated from its "
+                                    "start", got=takes, expected=want)
+                    break
     return [C.result(
         "repeat=True: prefix of 3 epochs + 2 is endless, within the selection "
         "(shards=k or whole split), periodic when unshuffled, a permutation "
@@ -549,8 +677,8 @@ def check_damage(ctx):
     from sedpack.io import Dataset
     tier = ctx["tier"]
     out = []
-    fmts = [("fb", ""), ("fb", "GZIP"), ("npz", ""), ("tfrec", "")] \
-        if tier == "quick" else [
+    fmts = [("fb", ""), ("fb", "GZIP"), ("fb", "LZ4"), ("npz", ""),
+            ("tfrec", "")] if tier == "quick" else [
         ("fb", ""), ("fb", "GZIP"), ("fb", "LZ4"), ("npz", ""), ("npz", "ZIP"),
         ("tfrec", ""), ("tfrec", "GZIP")]
     all_kinds = ["deleted", "emptied", "garbage"]
@@ -566,6 +694,8 @@ def check_damage(ctx):
             if tier == "quick" and fmt != "fb":
                 kinds = ["deleted", "short-column" if fmt == "npz"
                          else "garbage"]
+            if tier == "quick" and comp == "LZ4":
+                kinds = ["emptied", "garbage"]   # codec errors of another type
             for kind in kinds:
                 for pos in positions:
                     root = tmp / f"{fmt}_{comp}_{kind}_{pos}"
@@ -721,9 +851,19 @@ def check_lazy(ctx):
                         for take in (1, 3, 7):
                             n_eval += 1
                             del opened[:]
-                            got = C.iterate(d, iface, "train", limit=take,
-                                            repeat=True, shuffle=shuffle,
-                                            file_parallelism=fp)
+                            try:
+                                got = C.iterate(d, iface, "train", limit=take,
+                                                repeat=True, shuffle=shuffle,
+                                                file_parallelism=fp,
+                                                timeout=60)
+                            except TimeoutError as e:
+                                bad = dict(interface=iface, shuffle=shuffle,
+                                           fp=fp, take=take,
+                                           opened=len(opened),
+                                           outcome="taking finitely many "
+                                           "examples from the repeating "
+                                           "stream did not end: " + str(e))
+                                break
                             # abandoning the pass only QUEUES the stop
                             # sentinels: the pool's worker threads still work
                             # off what they were handed.  Wait for them, so
